@@ -5,7 +5,6 @@ import (
 	"go/ast"
 	"go/parser"
 	"go/token"
-	"os"
 	"path/filepath"
 	"strconv"
 	"strings"
@@ -244,7 +243,7 @@ func sdsdotSpecial(u *unifier, a, b ast.Node) (bool, bool) {
 
 func parseFile(rel string) (*ast.File, error) {
 	path := filepath.Join(core.RepoDir, rel)
-	src, err := os.ReadFile(path)
+	src, err := core.ReadFile(path)
 	if err != nil {
 		return nil, err
 	}
